@@ -27,7 +27,7 @@ def check(pid, category, text, note, technique, design_ref, thorough=True):
 check("C16", "fault_enumeration",
       "Exhaustive fault enumeration on the real reader/builder/checker: for each of the six non-declaring label kinds the "
       "label is replaced by every single-token fault of its base texts (delete, truncate, open comment, replace by / insert "
-      "each of 38 tokens at every token position) and by every token string of length <= 2 (quick) / 3 (thorough) over the "
+      "each of 39 tokens - a string literal among them - at every token position) and by every token string of length <= 2 (quick) / 3 (thorough) over the "
       "same alphabet, (location labels: the first location carries an invariant and a rate, base texts with quantifiers) inside a model that shadows one name globally, template-locally and in select binders and uses it again "
       "in later edges, the next template and the system section; the resulting document with that one label masked must equal "
       "the fault-free document and every diagnostic must point at the faulted label. Declarations: 343 lists of three "
@@ -49,18 +49,22 @@ check("C17", "exploration",
       "conjunctions, inline-if bounds and on clock-array elements; assignments hidden in global / template-local functions "
       "and their statements; clock-array initialisers; rates under forall; pairs of features for different methods in two "
       "templates in both orders; every channel-priority list of 1-3 elements with every choice of separators, process priorities "
-      "at every position of the system line - each instantiated "
+      "at every position of the system line; records containing clocks initialised by named fields in every declaration x initialiser order "
+      "(variable, array element, nested); the features applied through `clock &` / `hybrid clock &` parameters of functions and templates "
+      "bound to ordinary and hybrid clocks - each instantiated "
       "(explicitly and directly), uninstantiated, and in two declaration orders. Oracle: a method is reported supported only "
       "if the generator's feature flag permits it; unused templates and declaration order do not change the verdict.",
       "Only the statement's 'only if' direction and invariance clauses are demanded; variable-valued rates are not claimed "
-      "(the suite's rate_expression.xml fixes that they keep symbolic analysis). Only accepted models count.",
+      "(the suite's rate_expression.xml fixes that they keep symbolic analysis). Only accepted models count. Known finding: a non-hybrid "
+      "clock bound to a hybrid clock reference (known_findings.txt).",
       "bounded-exhaustive matrix enumeration on the real code against a reference feature oracle (generator flags)",
       "DESIGN.md §3/C17")
 
 check("C18", "exploration",
       "Exhaustive enumeration of the real header on every int8_t interval x element (and every interval pair in the "
       "thorough tier) against set semantics computed in wider arithmetic, plus the full product of boundary grids for "
-      "int32_t and double, plus the same enumeration under UBSan for the overflow clause. For int8_t this is a complete "
+      "int32_t and double, every compound operation again with operands that alias the receiver (its own bounds, the range itself), "
+      "plus the same enumeration under UBSan for the overflow clause. For int8_t this is a complete "
       "decision of the property; for the wide types it is exhaustive over the grid only.",
       "Trusts the reference semantics in harness/standalone_c18.cpp (set definitions evaluated in int/__int128) and "
       "gcc's UBSan. Cases whose true result leaves the element type are skipped, as the statement allows.",
@@ -97,7 +101,8 @@ check("C02", "exploration",
 
 check("C03", "exploration",
       "Every expression tree of the C02 enumeration that the library itself accepts (parses and type checks without "
-      "diagnostics), a grid of double/int literals, and 59 query forms x boolean/numeric operand pools are printed with the "
+      "diagnostics), a grid of double/int literals, 28 string literals (text that reads as a declared name / number / operator, characters "
+      "outside ASCII, backslashes and escaped quotes) as arguments in five expression shapes, and 59 query forms x boolean/numeric operand pools are printed with the "
       "library's str(), re-parsed by the same parser in the same scope and compared: no throw, no diagnostics, identical "
       "tree (kinds, order, symbols, constants bit-exact), identical query kind, identical second str().",
       "The text of a control-synthesis query is taken to be the prefix recorded in PropInfo::type plus str(intermediate), as "
@@ -190,7 +195,9 @@ check("C11", "exploration",
       "local-only-writer control, so that the real type checker's verdicts are decided cell by cell. Plus template-local writers "
       "around later same-named declarations, and six contexts inside the definition of a dynamic template whose announcement "
       "stands before / between / after the called functions; invariants of urgent and committed locations; queries calling template-local "
-      "functions through a process or an element of a process set (7 writers, 3 readers, 9 query forms).",
+      "functions through a process or an element of a process set (7 writers, 3 readers, 9 query forms); the writing expression in the "
+      "initialiser, every size and the range bound of a variable of every declared-type shape (0-3 dimensions cut into typedef groups, "
+      "const / meta prefixes, four bases, three scopes: 1041 places x 8 write forms quick, 1218 x 54 thorough).",
       "Twins in compile-time contexts read constants only. Progress measures are not in the statement's list and are not "
       "enumerated. Small scope: chains <= 3, one representative per statement form.",
       "bounded-exhaustive matrix enumeration on the real type checker with a twin (differential) oracle",
@@ -220,7 +227,8 @@ check("C13", "exploration",
       "dependence chains that stay inside one function body (parameters, local variables, local constants initialised from "
       "run-time values), const-typed template parameters through functions, chains of 1-3 partial instantiations, and 8 chains "
       "through template-local constant arrays / records / arrays of records x 4 sinks, and 14 functions that read the variable in exactly one "
-      "syntactic position; mutable cell must be rejected, constant twin accepted.",
+      "syntactic position; a named type declared a second time (8 scope pairs and same-scope pairs of different names x 6 kinds x 3 uses x "
+      "8 expressions, either order); mutable cell must be rejected, constant twin accepted.",
       "Every declared type is used. Function-local initialisers are outside the statement. Small scope: chains <= 3.",
       "bounded-exhaustive matrix enumeration on the real type checker with a twin (differential) oracle",
       "DESIGN.md §3/C13")
@@ -242,8 +250,10 @@ check("C15", "model_checking",
       "buffer/fd, XTA by buffer/FILE*, queries by buffer/FILE*, bare blocks; accepted, diagnosed, throwing XMLReaderError / "
       "XMLDocError / runtime_error / TypeException from inside the grammar, unterminated comments, 3.x syntax, a client builder "
       "aborting inside a comment / an array declarator / a label, literals that leave errno set). All histories of length <= 2 (quick) / 3 (thorough) from "
-      "five counter seeds without pruning, then BFS to depth 4 / 6 merging histories that leave identical global state, then "
-      "every alignment of the 32-bit position counter relative to 2^31 and 2^32 for every event. Oracle: each call's canonical "
+      "five counter seeds without pruning, then BFS to depth 3 / 6 merging histories that leave identical global state, then "
+      "every alignment of the 32-bit position counter relative to 2^31 and 2^32 for every event, then all histories of length <= 3 / 4 over 15 "
+      "events on documents that stay alive between calls (queries and expression blocks against three kept documents, replacing and dropping "
+      "them, reads of other documents in between). Oracle: each call's canonical "
       "result (return value or exception class, diagnostics with path/line/columns as the library renders them, document "
       "dump, supported methods, parsed queries) equals that of the same call made first in a fresh process.",
       "No hand model: every transition is an execution of the implementation. Pruning is sound if the digest is all a later "
@@ -295,7 +305,8 @@ check("C20", "exploration",
       "resolving to the initial location, one transition per edge in order with end points, controllable attribute and label "
       "presence; label texts are judged by parsing the written file again and comparing the expression trees. Branchpoints "
       "(also in a template that is not the first): one element each with a unique id, and the references of edges through "
-      "them resolve to the right branchpoint.",
+      "them resolve to the right branchpoint. Every label kind x 20 string literals (characters of 2-4 bytes, XML-special text, escaped "
+      "quotes): a model rebuilt from the written elements and label texts alone must give the same expressions.",
       "ElementTree as independent reader; label text equivalence via re-parse by the library (expression trees).",
       "choice-tree DFS with deviation bound on the real parser+writer, independent-reader oracle",
       "DESIGN.md §3/C20")
